@@ -36,6 +36,21 @@ CLAIMED = {
    note="Trusted: Coq kernel, extraction + OCaml scenario parser/trace printer/trace parser, the hand transcription of the C text into Core/*.v (tied by trace equality on every run), vk.c/Kernel.v virtual kernel (probed against Linux by harness/vk_smoke.c), ivsim.c, ASan/UBSan",
    technique="Coq proof (simulation between model state and trace tracker, invariants over the whole interpreter) + extracted-model trace-equality correspondence + extracted monitors on implementation traces",
    ref="4 C01, 9.2"),
+ "C10": dict(
+   text="Proof (Coq): iv_signal.c as a labelled transition system (process-wide and per-thread ordered interest sets, total counters, dispositions, owner pid, per-interest active flag and raw event; steps register, unregister with hand-off, deliver(sig, thread) under sig_lock, event, fork); for every accepted sequence: fan-out selection (this-thread set of the receiving thread first, first exclusive only else all, else the same among process-wide ones), every marked interest's handler runs unless unregistered, re-marking during a handler, exclusive hand-off at any scope (after the fix 47c5218; the pre-fix step is kept and shown to drop the delivery), SIG_DFL iff no interest, fork isolation. Tie: real iv_signal.c with virtual signals (interposed sigaction/pthread_sigmask, delivery at yield points of the chosen thread under the baton scheduler) -- the log must be accepted by the extracted model and pass the extracted full-strength monitor.",
+   note="Trusted: Coq kernel, extraction, log parser, mt.c virtual signals/processes and baton scheduler, vk.c; AVL sets modelled as sorted lists (C16); registration in a forked child is modelled but not exercised (virtual fork shares memory)",
+   technique="Coq proof (invariants over accepted label sequences) + trace acceptance under a baton scheduler with virtual signals",
+   ref="4 C10, 9.2"),
+ "C11": dict(
+   text="Proof (Coq): iv_wait.c as a labelled transition system (pid-ordered global set, per-interest queue and DEAD flag, kernel children with scripted status changes and an oracle order for wait4, spawn = fork + insert under the lock, reap loop under the lock, completion, kill helper); for every accepted sequence: statuses are delivered to the interest of their pid in reap order in the registering thread, the terminal status once and nothing after it, a spawned child cannot be missed, children without interest are reaped harmlessly (the pre-fix NULL dereference, fixed in 8600429, is a modelled Crash outcome shown unreachable), the kill helper never signals a reaped pid. Tie: real iv_wait.c on virtual processes (interposed fork/wait4/kill) under the baton scheduler; log acceptance + extracted monitor.",
+   note="Trusted: as C10; which thread reaps is an oracle; 'nothing lost' is decided at quiescence",
+   technique="Coq proof (invariants over accepted label sequences) + trace acceptance under a baton scheduler with virtual processes",
+   ref="4 C11, 9.2"),
+ "C19": dict(
+   text="Proof (Coq): iv_popen.c on top of the wait model and virtual time, for every oracle of child behaviour (exits at once / on the first SIGTERM / ignores SIGTERM / exits between two signals, stop/continue noise) and every timing of close: after close the signals sent are SIGTERM at +0,+5,... (five) then SIGKILL every 5 s until the termination is reaped, never after it; record, wait interest and timer are released exactly once so the loop can exit; the returned descriptor is the right pipe end (child-side dup2/execvp wiring: transcription lemma). Tie: real iv_popen.c + iv_wait.c on virtual processes and virtual clock (log acceptance + monitor), plus a REAL fork/exec smoke run on the real kernel (harness/popen_smoke.c: data through the descriptor both ways, /dev/null on the other standard streams, no zombie, loop exits).",
+   note="Trusted: as C11; 'ended' = 'termination reaped' (a signal to an unreaped zombie cannot be excluded by a user-space library); the child side of fork is exercised only by the smoke run",
+   technique="Coq proof (all child-behaviour oracles) + trace acceptance with virtual processes/time + real fork/exec smoke test",
+   ref="4 C19, 9.2"),
 }
 NA_REASON = "not claimed yet: the model/theorem/tie for this property is still being built (see DESIGN.md section 7 order of work)"
 
